@@ -60,7 +60,9 @@ def run_case(ctx, rng, index, casedir):
     big = ctx.tier == "thorough" and rng.random() < 0.1
     nrec = rng.randint(300, 2000) if big else None
     w = VC.build(rng, casedir, index, ctx.tier, nrec=nrec, long_lines=rng.random() < 0.25,
-                 size="medium" if big else None)
+                 size="medium" if big else None, dotdot=rng.random() < 0.07)
+    if w.dotdot:
+        sit["gaf_named_through_symlinked_directory_and_dotdot"] += 1
     M.CTX["coords"], M.CTX["g"] = w.coords, w.g
     sit["stable_gaf" if w.stable else "unstable_gaf"] += 1
     if w.mode == "plain":
